@@ -15,22 +15,23 @@ Definition rule_port_contains (rproto pr : proto) (range : option (Z * Z)) (n : 
   proto_eqb rproto pr &&
   match range with None => false | Some (s, e) => (s <=? n) && (n <=? e) end.
 
-(* ruleConnsContain *)
+(* ruleConnsContain: every entry is examined (an entry that cannot be evaluated is reported whatever its position) *)
 Fixpoint np_ports_contain (ports : list np_port) (dst : peer) (pr : proto) (n : Z) : outcome bool :=
   match ports with
   | [] => Ok false
   | pp :: t =>
       match pp_port pp with
-      | PAll => if proto_eqb (pp_proto pp) pr then Ok true else np_ports_contain t dst pr n
+      | PAll => do rest <- np_ports_contain t dst pr n; Ok (proto_eqb (pp_proto pp) pr || rest)
       | _ => do r <- get_ports_range pp dst;
-             if rule_port_contains (pp_proto pp) pr r n then Ok true else np_ports_contain t dst pr n
+             do rest <- np_ports_contain t dst pr n;
+             Ok (rule_port_contains (pp_proto pp) pr r n || rest)
       end
   end.
 
 Definition np_rule_contains (ports : list np_port) (dst : peer) (pr : proto) (n : Z) : outcome bool :=
   match ports with [] => Ok true | _ => np_ports_contain ports dst pr n end.
 
-(* IngressAllowedConn / EgressAllowedConn *)
+(* IngressAllowedConn / EgressAllowedConn: every rule is examined *)
 Fixpoint np_rules_allow (npns : string) (rules : list np_rule) (other dst : peer) (pr : proto) (n : Z)
   : outcome bool :=
   match rules with
@@ -39,7 +40,8 @@ Fixpoint np_rules_allow (npns : string) (rules : list np_rule) (other dst : peer
       do sel <- np_rule_selects npns (nr_peers r) other;
       if negb sel then np_rules_allow npns t other dst pr n
       else do c <- np_rule_contains (nr_ports r) dst pr n;
-           if c then Ok true else np_rules_allow npns t other dst pr n
+           do rest <- np_rules_allow npns t other dst pr n;
+           Ok (c || rest)
   end.
 
 Definition np_policy_allows (np : netpol) (src dst : peer) (ingress : bool) (pr : proto) (n : Z) : outcome bool :=
@@ -50,7 +52,8 @@ Fixpoint nps_allow (sel : list netpol) (src dst : peer) (ingress : bool) (pr : p
   match sel with
   | [] => Ok false
   | np :: t => do a <- np_policy_allows np src dst ingress pr n;
-               if a then Ok true else nps_allow t src dst ingress pr n
+               do rest <- nps_allow t src dst ingress pr n;
+               Ok (a || rest)
   end.
 
 (* allowedXgressConnectionByNetpols: None = not captured *)
